@@ -281,7 +281,7 @@ func (g agg) String() string {
 // there, is compared with the nearest other identity of the result that is not
 // an exact match itself; the attributes in which the two differ are what the
 // merge lost or altered.
-func classify(want, got agg) string {
+func classify(want, got, inputs agg) string {
 	var cands []*entry
 	var gk []string
 	for k := range got {
@@ -305,28 +305,42 @@ func classify(want, got agg) string {
 	sort.Strings(wk)
 	kinds := map[string]bool{}
 	missing, wrong := false, false
-	for _, k := range wk {
-		g, ok := got[k]
-		if ok {
-			if sameVals(g.vals, want[k].vals) {
-				continue
-			}
-			wrong = true
-		} else {
-			missing = true
-		}
+	nearest := func(id *ident, among []*entry) {
 		var best []string
-		for _, c := range cands {
-			if c == g {
-				continue
-			}
-			d := want[k].id.diff(c.id)
+		for _, c := range among {
+			d := id.diff(c.id)
 			if best == nil || len(d) < len(best) {
 				best = d
 			}
 		}
 		for _, d := range best {
 			kinds[d] = true
+		}
+	}
+	for _, k := range wk {
+		g, ok := got[k]
+		if ok {
+			if !sameVals(g.vals, want[k].vals) {
+				wrong = true
+			}
+			continue
+		}
+		missing = true
+		nearest(want[k].id, cands)
+	}
+	if len(kinds) == 0 && wrong && extra {
+		// nothing is missing but sums are short and there are identities
+		// nobody asked for: part of a stack's weight moved to an altered copy
+		var extras []*entry
+		for _, k := range gk {
+			if _, ok := want[k]; !ok {
+				extras = append(extras, got[k])
+			}
+		}
+		for _, k := range wk {
+			if g, ok := got[k]; ok && !sameVals(g.vals, want[k].vals) {
+				nearest(want[k].id, extras)
+			}
 		}
 	}
 	if missing && len(cands) == 0 {
@@ -342,6 +356,30 @@ func classify(want, got agg) string {
 					continue
 				}
 				d := want[k].id.diff(want[k2].id)
+				if best == nil || len(d) < len(best) {
+					best = d
+				}
+			}
+			for _, d := range best {
+				kinds[d] = true
+			}
+		}
+	}
+	if len(kinds) == 0 && extra {
+		// identities nobody asked for: compare them with the nearest identity
+		// of any input stack (also those whose sums cancel)
+		var ik []string
+		for k := range inputs {
+			ik = append(ik, k)
+		}
+		sort.Strings(ik)
+		for _, k := range gk {
+			if _, ok := want[k]; ok {
+				continue
+			}
+			var best []string
+			for _, k2 := range ik {
+				d := got[k].id.diff(inputs[k2].id)
 				if best == nil || len(d) < len(best) {
 					best = d
 				}
